@@ -27,7 +27,7 @@ OWNED = ('diff:match', 'diff:groups', 'not_compilable')
 
 def shards(tier):
     n = 16 if tier == 'quick' else 64
-    ex = 500 if tier == 'quick' else 2500
+    ex = 1500 if tier == 'quick' else 8000
     return [{'examples': ex, 'max_leaves': 6 if i % 3 else 8} for i in range(n)]
 
 
